@@ -190,12 +190,14 @@ fn gen_join_builtin(rng: &mut Rng, max: usize) -> JoinCase {
     };
     let assoc = rng.bool();
     let prims = [Ty::Bool, Ty::Int(ints::U8), Ty::Int(ints::I8), Ty::Int(ints::U16), Ty::Int(ints::I32), Ty::Int(ints::U64)];
+    // (in 1 of 6 cases the associated data of both sides is zero-sized: the rows are tuples, but no wider than their key)
+    let zero_sized_payloads = rng.chance(1, 6);
     let (ea, eb) = if assoc {
         let mut side = |rng: &mut Rng| {
             let k = 1 + rng.usize_below(2); // no 1-tuples (not expressible as literals)
             let mut f = vec![key.clone()];
             for _ in 0..k {
-                f.push(rng.pick(&prims).clone());
+                f.push(if zero_sized_payloads { Ty::Array(Box::new(rng.pick(&prims).clone()), 0) } else { rng.pick(&prims).clone() });
             }
             Ty::Tuple(f)
         };
